@@ -85,6 +85,15 @@ def run_scenario(sc: dict[str, Any]) -> dict[str, Any]:
                         return Plan(fault=Fault('status', code=409))
                 return None
             sim.srv.policy = policy
+        if sc.get('plat'):               # the PATCH that carries a run's result takes `plat` seconds: the run is over when it has been applied
+            from sim.fakek8s import Plan
+
+            def lpolicy(req):
+                b_ = req.body if isinstance(req.body, dict) else {}
+                if req.route.get('kind') == 'patch' and req.route.get('name') == 'o1' and 'tick' in (b_.get('status') or {}):
+                    return Plan(pre=sc['plat'])
+                return None
+            sim.srv.policy = lpolicy
         op = sim.operator('op1', reg, sim.settings(watching__reconnect_backoff=1))      # whole seconds also when a stream is reopened
         t0 = 1
         sim.world.at(t0, lambda: sim.create('o1', {'x': 1}, labels={'tm': 'yes'} if toggles else None), 1)
@@ -132,10 +141,12 @@ def run_scenario(sc: dict[str, Any]) -> dict[str, Any]:
         for e in sim.recorder.events:
             ev = e['ev']
             if ev == 't.start':
-                pending = {'ev': 'start', 't': e['t'], 'retry': e['retry'], 'dur': e['dur'], 'k': e['k'], 'd': e['d']}
+                lat = sc['plat'] if sc.get('plat') and sc.get('result') and e['k'] == 'ok' else 0
+                pending = {'ev': 'start', 't': e['t'], 'retry': e['retry'], 'dur': e['dur'] + lat, 'k': e['k'], 'd': e['d']}
                 out.append(pending)
             elif ev == 't.end':
-                out.append({'ev': 'end', 't': e['t']})
+                lat = sc['plat'] if sc.get('plat') and sc.get('result') and e['k'] == 'ok' else 0
+                out.append({'ev': 'end', 't': e['t'] + lat})
             elif ev == 't.patchfail':
                 out.append({'ev': 'patchfail', 't': e['t']})
             elif ev == 'q.proc.begin' and e.get('res') == 'things':
@@ -149,6 +160,11 @@ def run_scenario(sc: dict[str, Any]) -> dict[str, Any]:
             elif ev == 'quiet':
                 out.append({'ev': 'quiet', 't': e['t']})
                 break        # what follows is the harness stopping the operator (a running function is cancelled)
+        if sc.get('plat'):       # a run whose PATCH is still under way when the history ends has not ended
+            tq = next((e['t'] for e in out if e['ev'] == 'quiet'), None)
+            if tq is not None:
+                out = [e for e in out if not (e['ev'] == 'end' and e['t'] > tq)]
+                out = [e for e in out if e['ev'] != 'quiet'] + [e for e in out if e['ev'] == 'quiet']
         return {'id': sc['id'], 'conf': c, 't0': t0, 'events': out, 'stall': stall, 'scenario': sc}
     finally:
         sim.close()
@@ -175,6 +191,9 @@ def gen_scenarios(seed: int, n: int) -> list[dict[str, Any]]:
             r3 = random.Random(f'timers-pf-{seed}-{i}')
             out[-1].update(result=True, patchfail=r3.choice([1, 2, 3]), sync=False)
             out[-1]['runs'] = [(d_, 'ok', 0) for (d_, _k, _x) in out[-1]['runs']] + [(0, 'ok', 0)] * 3
+        if i % 6 == 2 and conf['interval']:      # the PATCH of a run's result takes time: a sharp timer stays on its grid all the same
+            r4 = random.Random(f'timers-lat-{seed}-{i}')
+            out[-1].update(result=True, plat=r4.choice([1, 1, 2]), sync=False, delete_at=None, changes=[], relist_changes=[])
         if i % 6 == 4:      # the object leaves the timer's filters (possibly in the middle of a run) and comes back
             r2 = random.Random(f'timers-tog-{seed}-{i}')
             t1 = r2.randint(3, 20); t2 = t1 + r2.choice([1, 2, 3, 6, 10])
